@@ -728,6 +728,53 @@ impl Ctx {
                 repl,
                 n,
             } => self.do_soak(i, *slot, *method, input, repl, *n),
+            Op::PanickingCall {
+                slot,
+                method,
+                input,
+                repl,
+            } => {
+                // the API call runs inside a destructor while this thread unwinds from a
+                // harness-made panic (private payload, no panic hook); its own guarded
+                // catch_unwind keeps budget / crash unwinds from escaping the destructor
+                struct CallOnDrop<'a> {
+                    ctx: &'a mut Ctx,
+                    op: usize,
+                    slot: usize,
+                    method: Method,
+                    input: &'a str,
+                    repl: &'a str,
+                    was_panicking: bool,
+                }
+                impl Drop for CallOnDrop<'_> {
+                    fn drop(&mut self) {
+                        self.was_panicking = std::thread::panicking();
+                        self.ctx
+                            .do_simple(self.op, self.slot, self.method, self.input, self.repl);
+                    }
+                }
+                struct HarnessPanic;
+                self.log(format!(
+                    "t={} T{} #{} next call is made while this thread is unwinding",
+                    now(),
+                    self.me(),
+                    i
+                ));
+                wlock(&self.world).rec.panicking_calls += 1;
+                let r = std::panic::catch_unwind(std::panic::AssertUnwindSafe(|| {
+                    let _g = CallOnDrop {
+                        ctx: self,
+                        op: i,
+                        slot: *slot,
+                        method: *method,
+                        input,
+                        repl,
+                        was_panicking: false,
+                    };
+                    std::panic::resume_unwind(Box::new(HarnessPanic));
+                }));
+                debug_assert!(r.is_err());
+            }
             Op::ClockAdvance { ms } => {
                 crate::clock::jump_ms(*ms);
                 wlock(&self.world).rec.clock_jumps += 1;
@@ -982,7 +1029,9 @@ pub fn run(
         }
     }
     sched::kick_off(&shared);
-    let in_time = sched::drive(&shared, std::time::Duration::from_secs(20), |i| {
+    // soak runs make hundreds of thousands of calls: give them more wall-clock
+    let wall = if spec.flavor == "s" { 150 } else { 20 };
+    let in_time = sched::drive(&shared, std::time::Duration::from_secs(wall), |i| {
         if let Some(h) = handles.get_mut(i).and_then(|h| h.take()) {
             let _ = h.join();
         }
@@ -1054,7 +1103,7 @@ pub fn run(
         }
         if !in_time {
             rec.inconclusive
-                .push("wall-clock guard: run did not finish in 20 s".to_string());
+                .push(format!("wall-clock guard: run did not finish in {} s", wall));
         }
         if keep_log || !rec.violations.is_empty() {
             rec.log = Some(g.log.clone());
